@@ -48,17 +48,18 @@ Shape_idx2 == [root |-> "I",
 
 Shape_nested == [root |-> "O",
   blobs |-> {"L1", "C1", "C2"},
-  mans |-> ("M1" :> "image") @@ ("M2" :> "image") @@ ("I" :> "index") @@ ("O" :> "index"),
+  mans |-> ("M1" :> "image") @@ ("M2" :> "image") @@ ("I" :> "index") @@ ("N" :> "index") @@ ("O" :> "index"),
   kids |-> ("M1" :> <<<<"C1", "config", "", FALSE>>, <<"L1", "layer", "", FALSE>>>>) @@
            ("M2" :> <<<<"C2", "config", "", FALSE>>, <<"L1", "layer", "", FALSE>>>>) @@
            ("I" :> <<<<"M1", "entry", "linux/amd64", FALSE>>>>) @@
-           ("O" :> <<<<"I", "entry", "", FALSE>>, <<"M2", "entry", "linux/arm64", FALSE>>>>),
+           ("N" :> <<<<"I", "entry", "linux/amd64", FALSE>>>>) @@
+           ("O" :> <<<<"N", "entry", "linux/amd64", FALSE>>, <<"M2", "entry", "linux/arm64", FALSE>>>>),
   refs |-> {},
   dtags |-> {},
   fbs |-> {},
-  uniq |-> {"C1", "C2", "M1", "M2", "I", "O"},
-  uniqfb |-> {"C1", "C2", "M1", "M2", "I", "O"},
-  order |-> <<"L1", "C1", "C2", "M1", "M2", "I", "O">>]
+  uniq |-> {"C1", "C2", "M1", "M2", "I", "N", "O"},
+  uniqfb |-> {"C1", "C2", "M1", "M2", "I", "N", "O"},
+  order |-> <<"L1", "C1", "C2", "M1", "M2", "I", "N", "O">>]
 
 Shape_art == [root |-> "M",
   blobs |-> {"C", "L1", "E", "B1", "B2", "B3"},
@@ -198,5 +199,22 @@ Shape_big == [root |-> "M",
   uniqfb |-> {"C", "LB", "L2", "M"},
   order |-> <<"C", "LB", "L2", "M">>]
 
-Shapes == ("img" :> Shape_img) @@ ("dup" :> Shape_dup) @@ ("idx2" :> Shape_idx2) @@ ("nested" :> Shape_nested) @@ ("art" :> Shape_art) @@ ("artidx" :> Shape_artidx) @@ ("bentry" :> Shape_bentry) @@ ("docker" :> Shape_docker) @@ ("schema1" :> Shape_schema1) @@ ("ext" :> Shape_ext) @@ ("empty" :> Shape_empty) @@ ("inline" :> Shape_inline) @@ ("dtag" :> Shape_dtag) @@ ("loop" :> Shape_loop) @@ ("big" :> Shape_big)
+Shape_xref == [root |-> "I",
+  blobs |-> {"L1", "C1", "C2"},
+  mans |-> ("M1" :> "image") @@ ("M2" :> "image") @@ ("I" :> "index") @@ ("X1" :> "index") @@ ("X2" :> "index"),
+  kids |-> ("M1" :> <<<<"C1", "config", "", FALSE>>, <<"L1", "layer", "", FALSE>>>>) @@
+           ("M2" :> <<<<"C2", "config", "", FALSE>>, <<"L1", "layer", "", FALSE>>>>) @@
+           ("I" :> <<<<"M1", "entry", "linux/amd64", FALSE>>, <<"M2", "entry", "linux/arm64", FALSE>>>>) @@
+           ("X1" :> <<<<"M2", "entry", "linux/arm64", FALSE>>>>) @@
+           ("X2" :> <<<<"M1", "entry", "linux/amd64", FALSE>>>>) @@
+           ("FB:M1" :> <<<<"X1", "entry", "", FALSE>>>>) @@
+           ("FB:M2" :> <<<<"X2", "entry", "", FALSE>>>>),
+  refs |-> {<<"X1", "M1", "sig">>, <<"X2", "M2", "sig">>},
+  dtags |-> {},
+  fbs |-> {<<"FB:M1", "M1">>, <<"FB:M2", "M2">>},
+  uniq |-> {"C1", "C2", "I", "X1", "X2"},
+  uniqfb |-> {"C1", "C2", "I", "FB:M1", "FB:M2"},
+  order |-> <<"L1", "C1", "C2", "M1", "M2", "I", "X1", "X2">>]
+
+Shapes == ("img" :> Shape_img) @@ ("dup" :> Shape_dup) @@ ("idx2" :> Shape_idx2) @@ ("nested" :> Shape_nested) @@ ("art" :> Shape_art) @@ ("artidx" :> Shape_artidx) @@ ("bentry" :> Shape_bentry) @@ ("docker" :> Shape_docker) @@ ("schema1" :> Shape_schema1) @@ ("ext" :> Shape_ext) @@ ("empty" :> Shape_empty) @@ ("inline" :> Shape_inline) @@ ("dtag" :> Shape_dtag) @@ ("loop" :> Shape_loop) @@ ("big" :> Shape_big) @@ ("xref" :> Shape_xref)
 =============================================================================
